@@ -165,3 +165,120 @@ func pureOfRuntimeState(r *core.Run, rule, what string, fns []*core.FuncInfo, ex
 			what+" also depends on package-level state that request paths change: "+strings.Join(bad, "; ")+" — the result for one request then depends on which requests ran before it (a memo keyed by less than the inputs, a remembered answer)")
 	}
 }
+
+// noPooledResult: a value a function returns does not alias an object it took from a pool (sync.Pool, the gost
+// bytes pools) — the object goes back to the pool when the function returns (or later), and the next taker
+// overwrites the bytes the caller still holds. Returning a copy (append([]T(nil), x...), string(x), bytes.Clone) is fine.
+func noPooledResult(r *core.Run, rule string, fns []*core.FuncInfo) {
+	w := r.W
+	isPoolTake := func(f *types.Func) bool {
+		if f == nil || f.Pkg() == nil {
+			return false
+		}
+		if f.Pkg().Path() == "sync" && f.Name() == "Get" {
+			if rn := core.RecvNamed(f); rn != nil && rn.Obj().Name() == "Pool" {
+				return true
+			}
+		}
+		if strings.HasSuffix(f.Pkg().Path(), "dubbogo/gost/bytes") && (strings.HasPrefix(f.Name(), "Acquire") || strings.HasPrefix(f.Name(), "Get")) {
+			return true
+		}
+		return false
+	}
+	for _, f := range dedupFns(fns) {
+		if f == nil || f.Decl.Body == nil || w.IsTestFile(f.Decl.Pos()) {
+			continue
+		}
+		info := f.Pkg.TypesInfo
+		pooled := map[types.Object]string{}
+		ast.Inspect(f.Decl.Body, func(n ast.Node) bool {
+			as, ok := n.(*ast.AssignStmt)
+			if !ok || len(as.Rhs) != 1 || len(as.Lhs) == 0 {
+				return true
+			}
+			takes := ""
+			ast.Inspect(as.Rhs[0], func(m ast.Node) bool {
+				if c, ok := m.(*ast.CallExpr); ok && isPoolTake(core.Callee(info, c)) {
+					takes = core.ExprString(c.Fun)
+				}
+				return true
+			})
+			if takes != "" {
+				if o := core.ObjOf(info, as.Lhs[0]); o != nil {
+					pooled[o] = takes
+				}
+			}
+			return true
+		})
+		if len(pooled) == 0 {
+			continue
+		}
+		// derive: variables defined from expressions mentioning a pooled (or derived) variable, three rounds
+		for round := 0; round < 3; round++ {
+			ast.Inspect(f.Decl.Body, func(n ast.Node) bool {
+				as, ok := n.(*ast.AssignStmt)
+				if !ok || len(as.Rhs) != 1 || len(as.Lhs) == 0 {
+					return true
+				}
+				for p, how := range pooled {
+					if mentions(info, as.Rhs[0], p) {
+						if o := core.ObjOf(info, as.Lhs[0]); o != nil {
+							if _, seen := pooled[o]; !seen {
+								pooled[o] = how
+							}
+						}
+					}
+				}
+				return true
+			})
+		}
+		isCopy := func(e ast.Expr) bool {
+			c, ok := ast.Unparen(e).(*ast.CallExpr)
+			if !ok {
+				return false
+			}
+			if tv, ok := info.Types[c.Fun]; ok && tv.IsType() {
+				if b, ok := tv.Type.Underlying().(*types.Basic); ok && b.Info()&types.IsString != 0 {
+					return true
+				}
+			}
+			if id, ok := ast.Unparen(c.Fun).(*ast.Ident); ok && id.Name == "append" && len(c.Args) >= 1 {
+				return !func() bool { // first arg must not be pooled
+					for p := range pooled {
+						if mentions(info, c.Args[0], p) {
+							return true
+						}
+					}
+					return false
+				}()
+			}
+			if g := core.Callee(info, c); g != nil && g.Name() == "Clone" {
+				return true
+			}
+			return false
+		}
+		ast.Inspect(f.Decl.Body, func(n ast.Node) bool {
+			if _, ok := n.(*ast.FuncLit); ok {
+				return false
+			}
+			rs, ok := n.(*ast.ReturnStmt)
+			if !ok {
+				return true
+			}
+			for _, e := range rs.Results {
+				if isCopy(e) {
+					continue
+				}
+				for p, how := range pooled {
+					if mentions(info, e, p) {
+						r.Sites++
+						r.Fn(f)
+						r.Bad(rule, core.ShortKey(f.Obj)+" returns nothing that aliases a pooled object", w.Pos(rs.Pos()), "the returned '"+core.ExprString(e)+"' aliases '"+p.Name()+"', taken from a pool ("+how+"): once it is back in the pool the next taker overwrites the bytes the caller still holds — with two messages in flight one goes out carrying the other's content")
+						return true
+					}
+				}
+			}
+			return true
+		})
+	}
+}
